@@ -145,6 +145,21 @@ let model_step (e : ecfg) (v : vec) (l : line) : mres option =
     (match r with
      | Ret v' -> keep { m_res = "unit"; m_vec = v'; m_drops = ef.f_drops; m_exact_drops = true }
      | Panic _ -> keep { m_res = "panic"; m_vec = v; m_drops = ef.f_drops; m_exact_drops = false })
+  | ["resize"; n; x; k] ->
+    (* Clone panics at its k-th call: if that call is reached (growing needs n - len - 1 clones),
+       the vector keeps its contents plus the k-1 clones made so far; the value is dropped once *)
+    let nl = n_of_string n in
+    let needed = Z.sub (Z.sub (z_of_n nl) (z_of_n v.v_len)) Z.one in
+    let kz = Z.of_string k in
+    if Z.leq kz needed then begin
+      let ((r, v'), ef) = resize_clone_panic e v nl (n_of_string x) l.next (nat_of_int (Z.to_int kz - 1)) in
+      keep { m_res = "panic"; m_vec = v'; m_drops = ef.f_drops; m_exact_drops = (match r with Panic PCallback -> true | _ -> false) }
+    end else begin
+      let (r, ef) = resize e v nl (n_of_string x) l.next [] in
+      (match r with
+       | Ret v' -> keep { m_res = "unit"; m_vec = v'; m_drops = ef.f_drops; m_exact_drops = true }
+       | Panic _ -> keep { m_res = "panic"; m_vec = v; m_drops = ef.f_drops; m_exact_drops = false })
+    end
   | ["extend_from_slice"; xs; k] when k = "0" ->
     (* clones of the source get the next fresh identities, in order *)
     let n = List.length (ids_of xs) in
